@@ -132,6 +132,12 @@ func (fr *frame) get(key ssa.Value) value {
 		if r, ok := fr.i.globals[key]; ok {
 			return r
 		}
+		// A package-level variable of a package whose initialiser the engine does not run holds its zero value,
+		// not what the program would see (os.ErrNotExist would be a nil error): refuse to continue rather than
+		// compute with it.
+		if key.Pkg != nil && !fr.i.p.InitPkgs[key.Pkg.Pkg.Path()] && !fr.i.p.isHarnessPkg(key.Pkg) && hasInitialiser(key) {
+			fr.i.x.abort(AbortUnmodelled, "package variable %s used but the initialiser of package %s is not executed", key.Name(), key.Pkg.Pkg.Path())
+		}
 		cell := zero(mustDeref(key.Type()))
 		fr.i.globals[key] = &cell
 		return &cell
@@ -658,4 +664,21 @@ func doRecover(caller *frame) value {
 		}
 	}
 	return iface{}
+}
+
+// hasInitialiser reports whether g is stored to by its package's init function (i.e. declared with an initialiser
+// that is not a compile-time constant zero).
+func hasInitialiser(g *ssa.Global) bool {
+	init := g.Pkg.Func("init")
+	if init == nil {
+		return false
+	}
+	for _, b := range init.Blocks {
+		for _, ins := range b.Instrs {
+			if st, ok := ins.(*ssa.Store); ok && st.Addr == g {
+				return true
+			}
+		}
+	}
+	return false
 }
